@@ -242,6 +242,67 @@ Fixpoint pick_entries (cfgd : list entry) (order : list Z) : option (list entry)
               end
   end.
 
+(* ---- the consumer: Session.listen / connectContextInner (c2/session.go, c2/c2.go) ------ *)
+(* what the session holds between passes: the host it talks to and the wrapper / transform it
+   wraps every exchange with *)
+Record held := mkH { h_host : Z; h_wrap : Z; h_trans : Z }.
+
+(* `if h, s.w, s.t = s.p.Next(); len(h) > 0 { s.host.Set(h) }` -- vals is what Next returned
+   ([host; wrapper; transform], host -1 = the empty string): wrapper and transform are always
+   taken, the host only when the group names one *)
+Definition take_next (hd : held) (vals : list Z) : held :=
+  match vals with
+  | [h; w; t] => mkH (if h =? -1 then h_host hd else h) w t
+  | _ => hd
+  end.
+
+(* at start (connectContextInner: `h, w, t := p.Next()`) and at a Profile swap (listen): one
+   Next() on the new profile, whose cursor is still nil; ds = the FastRandN results it consumes *)
+Definition consumer_enter (sel : Z) (ents : list entry) (hd : held) (ds : list Z) : option Z * held :=
+  (step_cur sel ents None ONext ds, take_next hd (step_vals sel ents None ONext ds)).
+
+(* one pass of the listen loop: `if s.p.Switch(e) { h, s.w, s.t = s.p.Next(); ... }`;
+   ds1 = draws of Switch, ds2 = draws of Next (when called) *)
+Definition consumer_pass (sel : Z) (ents : list entry) (st : option Z * held) (e : bool) (ds1 ds2 : list Z)
+  : option Z * held :=
+  let cur1 := step_cur sel ents (fst st) (OSwitch e) ds1 in
+  if snd (switch_d sel (len ents) (fst st) e ds1)
+  then (step_cur sel ents cur1 ONext ds2, take_next (snd st) (step_vals sel ents cur1 ONext ds2))
+  else (cur1, snd st).
+
+(* what a Connect shows: the connector it went through (the active entry's) and what the
+   session holds: [connector; host; wrapper; transform] *)
+Definition connect_event (sel : Z) (ents : list entry) (st : option Z * held) : list Z :=
+  step_vals sel ents (fst st) OConnect [] ++ [h_host (snd st); h_wrap (snd st); h_trans (snd st)].
+
+Record pass := mkPass { ps_e : bool; ps_ds1 : list Z; ps_ds2 : list Z }.
+
+Fixpoint consumer_passes (sel : Z) (ents : list entry) (st : option Z * held) (ps : list pass)
+  : list (list Z) * (option Z * held) :=
+  match ps with
+  | [] => ([], st)
+  | p :: r =>
+      let st1 := consumer_pass sel ents st (ps_e p) (ps_ds1 p) (ps_ds2 p) in
+      let '(evs, stf) := consumer_passes sel ents st1 r in
+      (connect_event sel ents st1 :: evs, stf)
+  end.
+
+(* a life of a session: segments = the profiles it runs with (the first at start, the others by
+   a Profile swap); the first segment begins with the initial Connect *)
+Record segment := mkSeg { sg_sel : Z; sg_ents : list entry; sg_enter : list Z; sg_passes : list pass }.
+
+Fixpoint consumer_segments (hd : held) (first : bool) (segs : list segment) : list (list Z) :=
+  match segs with
+  | [] => []
+  | sg :: r =>
+      let st0 := consumer_enter (sg_sel sg) (sg_ents sg) hd (sg_enter sg) in
+      let '(evs, stf) := consumer_passes (sg_sel sg) (sg_ents sg) st0 (sg_passes sg) in
+      (if first then [connect_event (sg_sel sg) (sg_ents sg) st0] else []) ++ evs
+      ++ consumer_segments (snd stf) false r
+  end.
+
+Definition no_held : held := mkH (-1) 0 0.
+
 (* ---- correspondence cases ---------------------------------------------- *)
 Definition pair_eqb (a b : Z * Z) : bool := (fst a =? fst b) && (snd a =? snd b).
 Definition obs_eqb (a b : obs) : bool :=
@@ -255,7 +316,24 @@ Inductive case :=
 (* a *Group assembled by the shim from the first k sorted entries with an arbitrary selector byte *)
 | CRaw (sel : Z) (ents : list entry) (ops : list (op * list Z)) (outs : list obs)
 (* a single-group Config: Build returns the bare profile *)
-| CProfile (en : entry) (ops : list (op * list Z)) (outs : list obs).
+| CProfile (en : entry) (ops : list (op * list Z)) (outs : list obs)
+(* the real Session.listen over built multi-group profiles: per segment the configured groups,
+   the observed order of g.entries and g.sel, the draws of the entering Next and the passes
+   (e handed to Switch, draws of Switch, draws of Next); events = per Connect
+   [connector; host; s.w; s.t] *)
+| CListen (segs : list (list entry * list Z * Z * list Z * list pass)) (events : list (list Z)).
+
+Fixpoint build_segments (l : list (list entry * list Z * Z * list Z * list pass)) : option (list segment) :=
+  match l with
+  | [] => Some []
+  | (cfgd, order, sel, enter, ps) :: r =>
+      if valid_order (map e_weight cfgd) order then
+        match pick_entries cfgd order, build_segments r with
+        | Some ents, Some segs => Some (mkSeg sel ents enter ps :: segs)
+        | _, _ => None
+        end
+      else None
+  end.
 
 Definition check (c : case) : bool :=
   match c with
@@ -268,4 +346,9 @@ Definition check (c : case) : bool :=
       end
   | CRaw sel ents ops outs => list_eqb obs_eqb (run sel ents None ops) outs
   | CProfile en ops outs => list_eqb obs_eqb (prun en ops) outs
+  | CListen segs events =>
+      match build_segments segs with
+      | None => false
+      | Some sg => list_eqb zlist_eqb (consumer_segments no_held true sg) events
+      end
   end.
